@@ -111,6 +111,49 @@ Theorem load_err_iff : forall decode conf fs,
 Proof. exact load_err_iff_proof. Qed.
 Print Assumptions load_err_iff.
 
+(* ---- fifth wave: the helper `only`; entries differing only in omitted / explicit false ---- *)
+
+(* The helper `only` (resolveCase's "all versions are HTTP/1.1" test) is: non-empty and every element equals x -
+   however often x is repeated; it is not "the list has length one". *)
+Theorem only_exact : forall l x, only l x = true <-> l <> [] /\ forall v, In v l -> v = x.
+Proof. exact only_exact_proof. Qed.
+Print Assumptions only_exact.
+
+(* An include / exclude entry that omits the version and asks for full-duplex (or for half-duplex that is not declared
+   over HTTP/1.1) is rejected whenever every declared version is HTTP/1.1, for a versions list of any length. *)
+Theorem duplex_entry_over_http1_rejected : forall cfg e,
+  In e (cfg_includes cfg ++ cfg_excludes cfg) ->
+  e_version e = 0 ->
+  all_http1 (r_versions (defaulted (cfg_features cfg))) ->
+  e_stream e = FULL \/ (e_stream e = HALF /\ r_half1 (defaulted (cfg_features cfg)) = false) ->
+  parse_config cfg = Err.
+Proof. exact duplex_entry_over_http1_rejected_proof. Qed.
+Print Assumptions duplex_entry_over_http1_rejected.
+
+(* Every entry is resolved from its own fields: exclude entries that say `use_tls: false` explicitly remove no TLS case
+   (an omitted flag would) ... *)
+Theorem exclude_explicit_false_keeps_tls : forall cfg cs c,
+  parse_config cfg = Ok cs ->
+  (forall e, In e (cfg_excludes cfg) -> e_tls e = Some false) ->
+  c_tls c = true ->
+  (In c cs <-> in_features (defaulted (cfg_features cfg)) c \/
+               exists e, In e (cfg_includes cfg) /\ matches (defaulted (cfg_features cfg)) e c).
+Proof. exact exclude_explicit_false_keeps_tls_proof. Qed.
+Print Assumptions exclude_explicit_false_keeps_tls.
+
+(* ... and likewise for use_tls_client_certs and use_message_receive_limit: a case that has a flag set survives every
+   exclude entry that sets that flag to false. *)
+Theorem exclude_explicit_false_keeps_flagged : forall cfg cs c,
+  parse_config cfg = Ok cs ->
+  (forall e, In e (cfg_excludes cfg) ->
+     (e_tls e = Some false /\ c_tls c = true) \/ (C06_Model.e_certs e = Some false /\ c_certs c = true) \/
+     (e_limit e = Some false /\ c_limit c = true)) ->
+  (In c cs <-> in_features (defaulted (cfg_features cfg)) c \/
+               exists e, In e (cfg_includes cfg) /\ matches (defaulted (cfg_features cfg)) e c).
+Proof. exact exclude_explicit_false_keeps_flagged_proof. Qed.
+Print Assumptions exclude_explicit_false_keeps_flagged.
+
+
 (* ---- non-vacuity: concrete instances on both sides of the iffs ---- *)
 Definition F0 := mkFeatures [] [] [] [] [] None None None None None None None.
 Definition E0 := mkEntry 0 0 0 0 0 None None None.
@@ -220,3 +263,28 @@ Example ex_efn_already : ensure_file_name (bs "open c.yaml: gone") (bs "c.yaml")
 Proof. vm_compute. reflexivity. Qed.
 Example ex_efn_wrapped : ensure_file_name (bs "gone") (bs "c.yaml") = Some (bs "c.yaml: gone").
 Proof. vm_compute. reflexivity. Qed.
+
+(* ---- fifth wave: instances ---- *)
+(* `only` on lists that repeat the value, and on one that does not consist of it *)
+Example ex_only_repeated : only [H1; H1] H1 = true /\ only [H1; H1; H1] H1 = true /\ only [H1] H1 = true /\
+                           only [H1; H1; H2] H1 = false /\ only [] H1 = false.
+Proof. vm_compute. auto. Qed.
+
+(* versions: [HTTP_1, HTTP_1] is an accepted features block; a full-duplex include over it is rejected, and so is an
+   undeclared half-duplex one; declared half-duplex is accepted *)
+Definition F11 (half : option bool) := mkFeatures [H1; H1] [] [] [] [] None None None None half None None.
+Example ex_repeated_http1 :
+  count (mkConfig (F11 None) [] []) = Some 144%nat /\
+  parse_config (mkConfig (F11 None) [mkEntry 0 0 0 0 FULL None None None] []) = Err /\
+  parse_config (mkConfig (F11 None) [] [mkEntry 0 0 0 0 HALF None None None]) = Err /\
+  count (mkConfig (F11 (Some true)) [mkEntry 0 0 0 0 HALF None None None] []) = Some 192%nat.
+Proof. vm_compute. auto. Qed.
+Example ex_repeated_http1_hyp : all_http1 (r_versions (defaulted (cfg_features (mkConfig (F11 None) [] [])))).
+Proof. apply only_exact. vm_compute. reflexivity. Qed.
+
+(* include {HTTP_1} then exclude {HTTP_1, use_tls: false}: the TLS cases over HTTP/1.1 stay; with the flag omitted in the
+   exclude entry they go as well *)
+Example ex_omitted_is_not_false :
+  count (mkConfig F0 [mkEntry H1 0 0 0 0 None None None] [mkEntry H1 0 0 0 0 (Some false) None None]) <>
+  count (mkConfig F0 [mkEntry H1 0 0 0 0 None None None] [mkEntry H1 0 0 0 0 None None None]).
+Proof. vm_compute. discriminate. Qed.
